@@ -179,6 +179,12 @@ def r_enqueue_guard(ctx, rule='R01.4', need_min=False):
                 any(is_subproblem_field(x, 'ub') and M.is_param(x[1]) for x in ubt[1]) and len(ubt[1]) == 2
             own = is_subproblem_field(ubt, 'ub') and M.is_param(ubt[1])
             if need_min:
+                pn = ctx.body(adt, 'process_one_node')
+                for (cbb, ct) in pn.calls_to('enqueue_cutset'):
+                    ua = pn.origin.operand(ct['args'][-1], pn.term_point(cbb))
+                    ctx.check(is_subproblem_field(ua, 'ub') and M.is_param(ua[1]), 'R19.2', tag + '/cap-is-popped-ub', pn, pn.loc(cbb),
+                              'the cap handed to enqueue_cutset is the ub of the node being processed',
+                              'enqueue_cutset is called with %s instead of the popped node\'s ub: the cap by the parent bound silently disappears' % M.show(ua)[:160])
                 ctx.check(is_min, 'R19.2', tag + '/child-ub-cap', c, c.loc(bb),
                           'the bound stored in a pushed cut-set node is min(parent ub, node ub)',
                           'the bound of a pushed cut-set node is %s, not min(parent ub, node ub): a child bound may exceed its parent\'s' % M.show(ubt))
